@@ -344,6 +344,12 @@ def run_check(P, tier, seed, replay=None, report_as=None):
         pa = {'ok': False, 'axioms': [], 'theorems': [], 'log': '', 'foreign_axioms': [], 'unprinted': []}
         if ok_proofs:
             pa = print_assumptions(P.PROPS_FILE)
+            for extra in getattr(P, 'EXTRA_PROPS', []):          # further files of property theorems (same rules)
+                pb = print_assumptions(extra)
+                pa = {'ok': pa['ok'] and pb['ok'], 'log': pa['log'] if not pa['ok'] else pb['log'],
+                      'axioms': sorted(set(pa['axioms']) | set(pb['axioms'])), 'closed': pa['closed'] + pb['closed'],
+                      'theorems': pa['theorems'] + pb['theorems'], 'unprinted': pa['unprinted'] + pb['unprinted'],
+                      'foreign_axioms': sorted(set(pa['foreign_axioms']) | set(pb['foreign_axioms']))}
             if not pa['ok']:
                 broken.append({'kind': 'proof', 'detail': 'property file does not check', 'where': failing_lemma(pa['log']), 'log': pa['log'][-1500:]})
             if pa['foreign_axioms']:
@@ -352,7 +358,7 @@ def run_check(P, tier, seed, replay=None, report_as=None):
                 broken.append({'kind': 'hygiene', 'detail': 'theorems without Print Assumptions: %s' % pa['unprinted']})
         else:
             broken.append({'kind': 'proof', 'detail': 'a proof obligation no longer checks', 'where': failing_lemma(log_proofs), 'log': log_proofs[-1500:]})
-        files = closure([P.PROPS_FILE])
+        files = closure([P.PROPS_FILE] + list(getattr(P, 'EXTRA_PROPS', [])))
         bad = hygiene(files)
         if bad:
             broken.append({'kind': 'hygiene', 'detail': bad})
